@@ -121,7 +121,11 @@ class FileDumper(DumperBase):
         # Finalise
         filename = temp_file.name
         temp_file.close()
-        self.write_file_to_output(filename, resource.res.source)
+        path = resource.res.source
+        if self.add_filehash_to_path and self.resource_hash:
+            # the descriptor now points at <dir>/<hash>/<file>: write the file there
+            path = resource_descriptor['path']
+        self.write_file_to_output(filename, path)
         os.unlink(filename)
 
     def process_resource(self, resource: ResourceWrapper):
